@@ -30,19 +30,21 @@ def peer_update(f, wd, nl, a):
                 comp = b'\x01\x18' + bytes(F[k][0])
                 out += bytes([len(comp)]) + comp
             return out
+        un = wire.attr(0x80, 15, struct.pack('!HB', 1, 133) + rules(wd)) if wd else b''
         if nl:
-            return wire.update(attrs=BASE + med_attr(a) + wire.attr(0x80, 14, struct.pack('!HBB', 1, 133, 0) + b'\x00' + rules(nl)))
-        return wire.update(attrs=wire.attr(0x80, 15, struct.pack('!HB', 1, 133) + rules(wd)))
+            return wire.update(attrs=BASE + med_attr(a) + wire.attr(0x80, 14, struct.pack('!HBB', 1, 133, 0) + b'\x00' + rules(nl)) + un)
+        return wire.update(attrs=un)
 
     def routes(ks, withdraw):
         out = b''
         for k in ks:
             out += bytes([24 + 64 + 32]) + (b'\x80\x00\x00' if withdraw else struct.pack('!I', (25 << 4) | 1)[1:]) + RD + V[k][0]
         return out
+    un = wire.attr(0x80, 15, struct.pack('!HB', 1, 128) + routes(wd, True)) if wd else b''
     if nl:
         v = struct.pack('!HBB', 1, 128, 12) + b'\x00' * 8 + b'\x02\x02\x02\x02' + b'\x00' + routes(nl, False)
-        return wire.update(attrs=BASE + med_attr(a) + wire.attr(0x80, 14, v))
-    return wire.update(attrs=wire.attr(0x80, 15, struct.pack('!HB', 1, 128) + routes(wd, True)))
+        return wire.update(attrs=BASE + med_attr(a) + wire.attr(0x80, 14, v) + un)
+    return wire.update(attrs=un)
 
 
 def rest_body(f, wd, nl, a):
@@ -50,13 +52,19 @@ def rest_body(f, wd, nl, a):
         attr = {'1': 0, '2': [], '3': '10.0.0.1', '4': MED[a]} if nl else {}
         return {'attr': attr, 'nlri': [P[k][2] for k in nl], 'withdraw': [P[k][2] for k in wd]}
     if f == 'flowspec':
+        at = {}
         if nl:
-            return {'attr': {'1': 0, '2': [], '4': MED[a], '14': {'afi_safi': [1, 133], 'nexthop': '', 'nlri': [{'1': F[k][1]} for k in nl]}}}
-        return {'attr': {'15': {'afi_safi': [1, 133], 'withdraw': [{'1': F[k][1]} for k in wd]}}}
+            at = {'1': 0, '2': [], '4': MED[a], '14': {'afi_safi': [1, 133], 'nexthop': '', 'nlri': [{'1': F[k][1]} for k in nl]}}
+        if wd:
+            at['15'] = {'afi_safi': [1, 133], 'withdraw': [{'1': F[k][1]} for k in wd]}
+        return {'attr': at}
+    at = {}
     if nl:
-        return {'attr': {'1': 0, '2': [], '4': MED[a], '14': {'afi_safi': [1, 128], 'nexthop': {'rd': '0:0', 'str': '2.2.2.2'},
-                                                               'nlri': [{'label': [25], 'rd': '100:100', 'prefix': V[k][1]} for k in nl]}}}
-    return {'attr': {'15': {'afi_safi': [1, 128], 'withdraw': [{'label': [25], 'rd': '100:100', 'prefix': V[k][1]} for k in wd]}}}
+        at = {'1': 0, '2': [], '4': MED[a], '14': {'afi_safi': [1, 128], 'nexthop': {'rd': '0:0', 'str': '2.2.2.2'},
+                                                   'nlri': [{'label': [25], 'rd': '100:100', 'prefix': V[k][1]} for k in nl]}}
+    if wd:
+        at['15'] = {'afi_safi': [1, 128], 'withdraw': [{'label': [25], 'rd': '100:100', 'prefix': V[k][1]} for k in wd]}
+    return {'attr': at}
 
 
 def attr_id(attr):
